@@ -921,6 +921,15 @@ func (e *exTr) boolT(t *Term, st *exState, k func(bool, *exState)) {
 		}
 		step(0, st)
 		return
+	case "ite":
+		e.boolT(t.Args[0], st, func(c bool, s2 *exState) {
+			if c {
+				e.boolT(t.Args[1], s2, k)
+			} else {
+				e.boolT(t.Args[2], s2, k)
+			}
+		})
+		return
 	case "=>":
 		e.boolT(t.Args[0], st, func(c bool, s2 *exState) {
 			if !c {
